@@ -37,6 +37,8 @@ impl FYshuffle {
     pub fn next(&mut self, rng: &mut impl rand::Rng) -> usize {
         if self.lastidx >= self.m {
             self.lastidx = 0;
+            #[cfg(feature = "verif_hooks")]
+            crate::verif::tick(crate::verif::Event::FyLazyWrap);
             log::debug!("FYshuffle next calling reset ");
         }
         let xsi = self.unif_01.sample(rng);
